@@ -1,4 +1,5 @@
 """C05 — memory is little-endian and byte-addressed; writes land at the end of the cycle."""
+from props import C19
 import re
 from props.common_prog import judge_prog
 
@@ -29,4 +30,6 @@ def judge(req, impl, model, spec):
 
 def streams(tier, seed):
     q = tier == "quick"
-    return [{"name": "prog-memory", "stream": "prog", "count": 600 if q else 20000, "extra": ("memory",), "judge": judge}]
+    return [{"name": "prog-memory", "stream": "prog", "count": 600 if q else 20000, "extra": ("memory",), "judge": judge},
+            # what the user sees goes through the command line and the two files: the real binary on accepted, rejected, big, not-UTF-8, bare-CR files, good and malformed images, all options and TIMEOUT forms (as in C19)
+            {"name": "cli", "stream": "cli", "count": 200 if q else 5000, "pygen": C19.pygen, "judge": C19.judge}]
